@@ -72,7 +72,7 @@ def _get_laplace_matrix(bcs: BoundariesList) -> tuple[NumericArray, NumericArray
                     matrix[i, k] += v * factor_l[i]
 
         else:
-            matrix[i, i - 1] = factor_l[i]
+            matrix[i, i - 1] += factor_l[i]
 
         if i == dim_r - 1:
             const, entries = bcs[0].get_sparse_matrix_data((dim_r,))
@@ -81,7 +81,7 @@ def _get_laplace_matrix(bcs: BoundariesList) -> tuple[NumericArray, NumericArray
                 matrix[i, k] += v * factor_h[i]
 
         else:
-            matrix[i, i + 1] = factor_h[i]
+            matrix[i, i + 1] += factor_h[i]
 
     return matrix, vector  # type: ignore
 
